@@ -26,6 +26,10 @@ func (h *ASCII4BytesHeader) Length() int {
 }
 
 func (h *ASCII4BytesHeader) WriteTo(w io.Writer) (int, error) {
+	if h.Len < 0 || h.Len > 9999 {
+		return 0, fmt.Errorf("length %d cannot be encoded in 4 ASCII digits", h.Len)
+	}
+
 	return fmt.Fprintf(w, "%04d", h.Len)
 }
 
@@ -43,6 +47,9 @@ func (h *ASCII4BytesHeader) ReadFrom(r io.Reader) (int, error) {
 	l, err := strconv.Atoi(string(buf))
 	if err != nil {
 		return 0, fmt.Errorf("converting header to int: %w", err)
+	}
+	if l < 0 {
+		return 0, fmt.Errorf("invalid header length: %d", l)
 	}
 	h.Len = l
 
